@@ -375,10 +375,9 @@ def _snapshot(cfg):
 
 def _base_cfg():
     """A non-default global configuration (so that merging / copying is observable)."""
+    import copy as cp
     from myst_parser.config.main import MdParserConfig
-    return MdParserConfig(enable_extensions=["deflist", "tasklist"], html_meta={"description": "g", "keywords": "gk"},
-                          substitutions={"a": "ga", "g": 1}, url_schemes={"http": None, "x": "https://x/{{path}}"},
-                          heading_anchors=1, fence_as_directive=["mermaid"], disable_syntax=["table"])
+    return MdParserConfig(**cp.deepcopy(BASE_KW))
 
 
 def check_value(ctx, case):
@@ -417,7 +416,11 @@ def check_value(ctx, case):
             bad(f"canonical:{f}:constructor", f"{f}={v!r} stored in a non-canonical form", exp, r1[1])
 
     # E2 copy on a non-default base; E3 front matter on the same base
-    base = _base_cfg()
+    try:
+        base = _base_cfg()
+    except Exception as e:
+        bad("reject-documented:base-config", f"the (documented-valid) base configuration {BASE_KW!r} is rejected: {e!r}")
+        return ok
     snap = _snapshot(base)
     try:
         c2 = base.copy(**{f: _copy.deepcopy(v)})
@@ -678,7 +681,11 @@ def check_topmatter(ctx, case):
     import copy as cp
     from myst_parser.config.main import MdParserConfig, merge_file_level
     top = deser(case["topmatter"])
-    base = MdParserConfig(**cp.deepcopy(BASE_KW))
+    try:
+        base = MdParserConfig(**cp.deepcopy(BASE_KW))
+    except Exception as e:
+        ctx.fail("reject-documented:base-config", case, f"the (documented-valid) base configuration is rejected: {e!r}")
+        return False
     snap = _snapshot(base)
     ws = []
     try:
